@@ -99,7 +99,13 @@ pub fn unify(state: &mut TypeCheckerState, watchdog: &DynWatchdog) -> Result<()>
             // Get all of the inferences. Combining them is not associative in all cases, so
             // they are folded in a canonical order rather than in the hash set's iteration
             // order, which differs from run to run.
-            let mut inferred_expressions: VecDeque<_> = inferences.into_iter().sorted().collect();
+            //
+            // The order looks at the shape of each expression before it looks at any type
+            // variable, as the numbering of type variables itself follows hash order.
+            let mut inferred_expressions: VecDeque<_> = inferences
+                .into_iter()
+                .sorted_by(|a, b| fold_shape(a).cmp(&fold_shape(b)).then_with(|| a.cmp(b)))
+                .collect();
             let mut current = inferred_expressions
                 .pop_front()
                 .expect("We know there is at least one item in the expressions queue");
@@ -160,6 +166,35 @@ pub fn unify(state: &mut TypeCheckerState, watchdog: &DynWatchdog) -> Result<()>
     state.set_result(forest);
 
     Ok(())
+}
+
+/// The shape of `expression` with its type variables left out: the variant, then its
+/// widths, lengths, offsets and sizes. Folding inference sets in the order of this key
+/// makes the result independent of how type variables happen to be numbered.
+fn fold_shape(expression: &TE) -> (u8, Vec<u128>) {
+    match expression {
+        TE::Any => (0, vec![]),
+        TE::Equal { .. } => (1, vec![]),
+        TE::Word { width, usage } => (
+            2,
+            vec![width.map_or(0, |w| w as u128 + 1), *usage as u128],
+        ),
+        TE::Bytes => (3, vec![]),
+        TE::FixedArray { length, .. } => (4, vec![*length.high(), *length.low()]),
+        TE::Mapping { .. } => (5, vec![]),
+        TE::DynamicArray { .. } => (6, vec![]),
+        TE::Packed { types, is_struct } => {
+            let mut spans = types
+                .iter()
+                .map(|span| (span.offset as u128, span.size as u128))
+                .sorted()
+                .flat_map(|(offset, size)| [offset, size])
+                .collect_vec();
+            spans.push(u128::from(*is_struct));
+            (7, spans)
+        }
+        TE::Conflict { .. } => (8, vec![]),
+    }
 }
 
 /// Combines `left` with `right` to produce a new type expression.
